@@ -11,6 +11,7 @@ EXPLANATION = ("Decides on the MIR / item inventory of the current tree: reset c
                "Equality of outcome multisets across runs is not decided.")
 RULE_TEXT = "rule instances = fields of Execution/Set, accessors of STATE, constructors, statics; non-trivial when matched to concrete items/sites"
 LEVEL_NOTE = "necessary conditions only"
+WITNESSES = ['C16RtIsPrivate', 'C06ModelNeedsFn', 'C06ModelNeedsSendSync']
 
 
 def run(ctx):
